@@ -1,2 +1,221 @@
+(* C12 — Accepted formations and renewals respect the host's settings.
+   Statements only; every proof is [exact lemma].  Model: Formation/Model.v = rhp/v2/contracts.go,
+   rhp/v3/contracts.go and the decision/recording part of rpcFormContract,
+   rpcRenewAndClearContract (rhp/v2/rpc.go) and handleRPCRenew (rhp/v3/rpc.go), WITH
+   fixes/C07-revision-validation-panics.patch and fixes/C12-renewal-cost-overflow.patch.
+
+   Vocabulary (Formation/Proofs.v, Revision/Proofs.v):
+     vh/mh/mvoid r   host valid / host missed / void payout (outputs 1 / 1 / 2)
+     terms_ok fc height window maxdur addr :=
+          height + window <= rws fc            window starts no sooner than the window size ...
+       /\ rws fc <= height + maxdur            ... and no later than the maximum duration from the height
+       /\ rws fc + window <= rwe fc            and is at least the window size long
+       /\ shape23 fc                           2 valid / 3 missed outputs
+       /\ addr_at (rvalid fc) 1 = addr /\ addr_at (rmissed fc) 1 = addr   host payouts to the wallet address
+       /\ addr_at (rmissed fc) 2 = void_addr   third missed output to the void address
+     nowrap height window maxdur := height + window < 2^64 /\ height + maxdur + window < 2^64
+     ext_cost unit ex rn := 0 if rwe rn <= rwe ex, else unit * rsize rn * (rwe rn - rwe ex)
+     inrange r       every output value < 2^128 (types.Currency is 128 bit)
+     [a - b] on N is truncated at 0.
+
+   Readings.  (1) The code computes height+window etc. in uint64; the model wraps likewise
+   (Base.wadd).  The lower bound and the window length are stated for hosts whose own settings do
+   not wrap around 2^64 ([nowrap]: all three operands are the host's, not the renter's); the upper
+   bound is shown for ALL settings (c12_*_window_start_upper_any_settings).  (2) "the host's
+   collateral does not exceed the configured maximum": the collateral is the locked collateral the
+   validator returns (formation: the code even bounds the whole host payout by MaxCollateral).
+   (3) "the base storage revenue of renewed data" is what the handlers compute: price * size *
+   extension of the proof window (plus the fixed RenewContractCost in RHP3). *)
 From HostdBase Require Import Base.
+From HostdRevision Require Import Model Proofs.
 From HostdFormation Require Import Model Proofs.
+From HostdFormation Require Legacy.
+Local Open Scope N_scope.
+
+(** validators *)
+
+Theorem c12_formation_sound : forall fc uhexp height s hc,
+  nowrap height (s_window s) (s_maxdur s) ->
+  validate_formation fc uhexp height s = Ok hc ->
+  terms_ok fc height (s_window s) (s_maxdur s) (s_address s) /\
+  rsize fc = 0 /\ rnum fc = 0 /\ rroot fc = 0 /\ ruh fc = uhexp /\
+  mvoid fc = 0 /\ vh fc = mh fc /\
+  s_price s <= vh fc /\ vh fc <= s_maxcoll s /\
+  hc = vh fc - s_price s /\ hc <= s_maxcoll s.
+Proof. exact validate_formation_sound. Qed.
+Print Assumptions c12_formation_sound.
+
+Theorem c12_renewal2_sound : forall ex rn uhexp baseRev baseRisk height s sr risked locked,
+  nowrap height (s_window s) (s_maxdur s) -> inrange rn ->
+  validate_renewal2 ex rn uhexp baseRev baseRisk height s = Ok (sr, risked, locked) ->
+  terms_ok rn height (s_window s) (s_maxdur s) (s_address s) /\
+  rnum rn = 0 /\ rsize rn = rsize ex /\ rroot rn = rroot ex /\ rwe ex <= rwe rn /\ ruh rn = uhexp /\
+  mh rn <= vh rn /\ vh rn - mh rn <= baseRev + baseRisk /\ mvoid rn = vh rn - mh rn /\
+  sr = baseRev /\ baseRev <= vh rn /\ locked = vh rn - baseRev /\ locked <= s_maxcoll s /\
+  risked = (vh rn - mh rn) - baseRev.
+Proof. exact validate_renewal2_sound. Qed.
+Print Assumptions c12_renewal2_sound.
+
+Theorem c12_renewal3_sound : forall ex rn uhexp wallet baseRev baseRisk pt risked locked,
+  nowrap (p_height pt) (p_window pt) (p_maxdur pt) -> inrange rn ->
+  validate_renewal3 ex rn uhexp wallet baseRev baseRisk pt = Ok (risked, locked) ->
+  terms_ok rn (p_height pt) (p_window pt) (p_maxdur pt) wallet /\
+  rnum rn = 0 /\ rsize rn = rsize ex /\ rroot rn = rroot ex /\ rwe ex <= rwe rn /\ ruh rn = uhexp /\
+  mh rn <= vh rn /\ vh rn - mh rn <= baseRev + baseRisk /\ mvoid rn = vh rn - mh rn /\
+  p_price pt + baseRev <= vh rn /\ locked = vh rn - (p_price pt + baseRev) /\ locked <= p_maxcoll pt /\
+  risked = (vh rn - mh rn) - baseRev /\
+  p_price pt + locked - risked <= mh rn.
+Proof. exact validate_renewal3_sound. Qed.
+Print Assumptions c12_renewal3_sound.
+
+(* the upper bound on the window start holds whatever the settings are *)
+Theorem c12_formation_window_start_upper_any_settings : forall fc uhexp height s hc,
+  validate_formation fc uhexp height s = Ok hc -> rws fc <= height + s_maxdur s.
+Proof. exact validate_formation_upper. Qed.
+Print Assumptions c12_formation_window_start_upper_any_settings.
+
+Theorem c12_renewal2_window_start_upper_any_settings : forall ex rn uhexp baseRev baseRisk height s x,
+  validate_renewal2 ex rn uhexp baseRev baseRisk height s = Ok x -> rws rn <= height + s_maxdur s.
+Proof. exact validate_renewal2_upper. Qed.
+Print Assumptions c12_renewal2_window_start_upper_any_settings.
+
+Theorem c12_renewal3_window_start_upper_any_settings : forall ex rn uhexp wallet baseRev baseRisk pt x,
+  validate_renewal3 ex rn uhexp wallet baseRev baseRisk pt = Ok x -> rws rn <= p_height pt + p_maxdur pt.
+Proof. exact validate_renewal3_upper. Qed.
+Print Assumptions c12_renewal3_window_start_upper_any_settings.
+
+(* accepted formations and renewals establish the shape C07 assumes of stored contracts *)
+Theorem c12_formation_establishes_shape : forall fc uhexp height s hc other uc,
+  validate_formation fc uhexp height s = Ok hc ->
+  shape23 fc /\ shape23 (initial_revision fc other uc).
+Proof. exact formation_establishes_shape. Qed.
+Print Assumptions c12_formation_establishes_shape.
+
+Theorem c12_renewal2_establishes_shape : forall ex rn uhexp baseRev baseRisk height s x other uc,
+  validate_renewal2 ex rn uhexp baseRev baseRisk height s = Ok x ->
+  shape23 rn /\ shape23 (initial_revision rn other uc).
+Proof. exact renewal2_establishes_shape. Qed.
+Print Assumptions c12_renewal2_establishes_shape.
+
+Theorem c12_renewal3_establishes_shape : forall ex rn uhexp wallet baseRev baseRisk pt x other uc,
+  validate_renewal3 ex rn uhexp wallet baseRev baseRisk pt = Ok x ->
+  shape23 rn /\ shape23 (initial_revision rn other uc).
+Proof. exact renewal3_establishes_shape. Qed.
+Print Assumptions c12_renewal3_establishes_shape.
+
+(* no candidate (any output counts, any values, any settings) makes validation panic *)
+Theorem c12_formation_no_panic : forall fc uhexp height s,
+  validate_formation fc uhexp height s <> Panic.
+Proof. exact validate_formation_no_panic. Qed.
+Print Assumptions c12_formation_no_panic.
+
+Theorem c12_renewal2_no_panic : forall ex rn uhexp baseRev baseRisk height s,
+  validate_renewal2 ex rn uhexp baseRev baseRisk height s <> Panic.
+Proof. exact validate_renewal2_no_panic. Qed.
+Print Assumptions c12_renewal2_no_panic.
+
+Theorem c12_renewal3_no_panic : forall ex rn uhexp wallet baseRev baseRisk pt,
+  inrange rn ->
+  validate_renewal3 ex rn uhexp wallet baseRev baseRisk pt <> Panic.
+Proof. exact validate_renewal3_no_panic. Qed.
+Print Assumptions c12_renewal3_no_panic.
+
+(** handlers: what is recorded for the contract (AddContract / RenewContract arguments) *)
+
+Theorem c12_form2_records : forall fc uhexp height require s o,
+  nowrap height (s_window s) (s_maxdur s) ->
+  form2 fc uhexp height require s = Ok o ->
+  exists locked u, o = OForm locked u /\
+  height < require /\ rws fc < require /\ s_accepting s = true /\
+  terms_ok fc height (s_window s) (s_maxdur s) (s_address s) /\
+  s_price s <= vh fc /\ locked <= s_maxcoll s /\
+  locked = vh fc - s_price s /\ u = mkU (s_price s) 0 0 /\
+  vh fc = locked + u_rpc u + u_storage u.
+Proof. exact form2_sound. Qed.
+Print Assumptions c12_form2_records.
+
+Theorem c12_renew2_records : forall ex vals rn uhexp height require s o,
+  nowrap height (s_window s) (s_maxdur s) ->
+  inrange rn -> inrange ex -> Forall (fun v => v < two128) vals ->
+  renew2 ex vals rn uhexp height require s = Ok o ->
+  exists locked cu ru clr, o = ORenew locked cu ru /\
+  height < require /\ rws rn < require /\ s_accepting s = true /\ rnum ex <> max64 /\
+  clearing_revision ex vals = Ok clr /\ cleared ex clr (N.min (vr ex) (s_baserpc s)) /\
+  cu = mkU (vh clr - vh ex) 0 0 /\
+  terms_ok rn height (s_window s) (s_maxdur s) (s_address s) /\
+  rnum rn = 0 /\ rsize rn = rsize ex /\ rroot rn = rroot ex /\ rwe ex <= rwe rn /\ ruh rn = uhexp /\
+  s_price s + ext_cost (s_storage s) ex rn <= vh rn /\
+  locked <= s_maxcoll s /\
+  mh rn <= vh rn /\ mvoid rn = vh rn - mh rn /\
+  vh rn - mh rn <= s_price s + ext_cost (s_storage s) ex rn + ext_cost (s_coll s) ex rn /\
+  locked = vh rn - (s_price s + ext_cost (s_storage s) ex rn) /\
+  ru = mkU (s_price s) (ext_cost (s_storage s) ex rn)
+           ((vh rn - mh rn) - (s_price s + ext_cost (s_storage s) ex rn)) /\
+  vh rn = locked + u_rpc ru + u_storage ru.
+Proof. exact renew2_sound. Qed.
+Print Assumptions c12_renew2_records.
+
+Theorem c12_renew3_records : forall accepting ex clr rn uhexp wallet require pt o,
+  nowrap (p_height pt) (p_window pt) (p_maxdur pt) ->
+  inrange rn -> inrange ex -> inrange clr ->
+  renew3 accepting ex clr rn uhexp wallet require pt = Ok o ->
+  exists locked cu ru, o = ORenew locked cu ru /\
+  rws rn < require /\ accepting = true /\
+  cleared ex clr 0 /\ cu = mkU (vh clr - vh ex) 0 0 /\
+  terms_ok rn (p_height pt) (p_window pt) (p_maxdur pt) wallet /\
+  rnum rn = 0 /\ rsize rn = rsize ex /\ rroot rn = rroot ex /\ rwe ex <= rwe rn /\ ruh rn = uhexp /\
+  p_price pt + (p_renewcost pt + ext_cost (p_writestore pt) ex rn) <= vh rn /\
+  locked <= p_maxcoll pt /\
+  mh rn <= vh rn /\ mvoid rn = vh rn - mh rn /\
+  vh rn - mh rn <= p_renewcost pt + ext_cost (p_writestore pt) ex rn + ext_cost (p_collcost pt) ex rn /\
+  locked = vh rn - (p_price pt + (p_renewcost pt + ext_cost (p_writestore pt) ex rn)) /\
+  ru = mkU (p_price pt) (p_renewcost pt + ext_cost (p_writestore pt) ex rn)
+           ((vh rn - mh rn) - (p_renewcost pt + ext_cost (p_writestore pt) ex rn)) /\
+  vh rn = locked + u_rpc ru + u_storage ru.
+Proof. exact renew3_sound. Qed.
+Print Assumptions c12_renew3_records.
+
+(* no renter input makes the handlers panic ([ex] is the host's own stored revision, which has a
+   renter output; the candidate contracts, final values, clearing revision are arbitrary) *)
+Theorem c12_form2_no_panic : forall fc uhexp height require s,
+  form2 fc uhexp height require s <> Panic.
+Proof. exact form2_no_panic. Qed.
+Print Assumptions c12_form2_no_panic.
+
+Theorem c12_renew2_no_panic : forall ex vals rn uhexp height require s,
+  (1 <= length (rvalid ex))%nat ->
+  renew2 ex vals rn uhexp height require s <> Panic.
+Proof. exact renew2_no_panic. Qed.
+Print Assumptions c12_renew2_no_panic.
+
+Theorem c12_renew3_no_panic : forall accepting ex clr rn uhexp wallet require pt,
+  inrange rn ->
+  renew3 accepting ex clr rn uhexp wallet require pt <> Panic.
+Proof. exact renew3_no_panic. Qed.
+Print Assumptions c12_renew3_no_panic.
+
+(* the last check of the RHP3 validator (missed host payout >= price + locked - risked) is
+   implied by the earlier ones: it never rejects *)
+Theorem c12_renewal3_missed_check_redundant : forall vhv mhv price baseRev,
+  mhv <= vhv -> price + baseRev <= vhv ->
+  price + (vhv - (price + baseRev)) - ((vhv - mhv) - baseRev) <= mhv.
+Proof. exact renewal3_missed_check_redundant. Qed.
+Print Assumptions c12_renewal3_missed_check_redundant.
+
+(* the unpatched cost arithmetic does panic on renter-chosen window ends / file sizes *)
+Theorem c12_legacy_no_panic_refuted :
+  (exists ex rn, rsize rn = rsize ex /\ rwe rn <= max64 /\
+     Legacy.base_costs 100 34722222222 0 ex rn = Panic) /\
+  (exists ex rn, rsize rn <= max64 /\ rwe rn <= max64 /\ Legacy.base_costs 0 2 0 ex rn = Panic) /\
+  (exists a b, a < two128 /\ b < two128 /\ Legacy.expected_burn a b = Panic).
+Proof. exact Legacy.legacy_panics. Qed.
+Print Assumptions c12_legacy_no_panic_refuted.
+
+(* non-vacuity: an accepted formation, RHP2 renewal and RHP3 renewal with the recorded figures *)
+Example c12_nonvacuous :
+  nowrap 1000 144 4320
+  /\ form2 ex_fc 1 1000 100000 ex_s2 = Ok (OForm 500 (mkU 100 0 0))
+  /\ renew2 ex_existing [2990; 910] ex_rn2 1 1000 100000 ex_s2 = Ok (ORenew 4000 (mkU 10 0 0) (mkU 100 838860800 50))
+  /\ renew3 true ex_existing ex_clr ex_rn3 1 5 100000 ex_pt = Ok (ORenew 4000 (mkU 10 0 0) (mkU 100 838860807 50))
+  /\ form2 ex_fc 1 1001 100000 ex_s2 = Err EInvalid.
+Proof. exact nonvacuous_ex. Qed.
